@@ -64,7 +64,7 @@ ASSUMPTIONS = ['"evaluating any rule terminates" is restated as bounded progress
 LEVEL_TEXT = ('Seeded sampling of reference graphs with targeted shapes, compared with an independent DFS; every clean '
               'graph is additionally executed. The graph space is unbounded, so structured sampling is the level.')
 LEVEL_NOTE = 'trusted: the independent graph analysis (own DFS over all rule: occurrences, including those under not)'
-PLAN = {'quick': dict(shards=4, wall=120), 'thorough': dict(shards=16, wall=400)}
+PLAN = {'quick': dict(shards=4, wall=150), 'thorough': dict(shards=16, wall=400)}
 MIN = {'evaluations': 500, 'graphs_clean': 100, 'graphs_undefined': 50, 'graphs_cyclic': 50, 'validator_runs': 50,
        'clean_rule_evaluations': 1000, 'graphs_reference_under_not': 50, 'late_registration_verdicts': 200,
        'living_verdicts_judged': 100, 'living_file_deleted': 20, 'living_bad_to_clean': 10, 'living_clean_to_bad': 8,
@@ -1289,7 +1289,9 @@ def run(ctx):
         if i % 100 == 0:
             ctx.sample({'route': case['route'], 'layers': [[w, T_(s)] for w, _, s in routes_stages(case)[0]],
                         'registered': {k: text_of(fromjson(v)) for k, v in case['registered'].items()}}, 'R')
-    ctx.release()
+    # every later stratum keeps a share too: the shares are cumulative fractions of the wall budget (a loaded machine cut
+    # strata D and U, which come last, to nothing: exit 2 on a behaviour-preserving refactoring, see DESIGN section 10)
+    ctx.reserve(0.5)
     ng, nw = N[ctx.tier]
     for i in range(ng // ctx.nshards + 1):
         if (i & 0x3f) == 0 and ctx.expired():
@@ -1302,6 +1304,7 @@ def run(ctx):
             check_late_registration(ctx, dict(case, late_registration=True, late=late))
         if i % 500 == 0:
             ctx.sample({'rules': {k: text_of(fromjson(v)) for k, v in case['rules'].items()}, 'shape': case['shape']}, 'G')
+    ctx.reserve(0.65)
     for i in range(nw // ctx.nshards + 1):
         if (i & 0xf) == 0 and ctx.expired():
             break
@@ -1320,6 +1323,7 @@ def run(ctx):
         check_validator(ctx, case)
         if i % 60 == 0:
             ctx.sample({'file': {k: text_of(fromjson(v)) for k, v in case['rules'].items()}, 'fault': case['fault']}, 'W')
+    ctx.reserve(0.75)
     for i in range(N_LIVING[ctx.tier] // ctx.nshards + 1):
         if (i & 0xf) == 0 and ctx.expired():
             break
@@ -1330,6 +1334,7 @@ def run(ctx):
                                                               for v in case['versions']]}, 'L')
     # stratum D has its own random stream: what it draws does not depend on how far the strata above got
     rnd = ctx.sub_rnd('deprecated', ctx.tier, ctx.shard, ctx.nshards)
+    ctx.reserve(0.9)
     nd, ndw = N_DEPRECATED[ctx.tier]
     for i in range((nd + ndw) // ctx.nshards + 1):
         if (i & 0xf) == 0 and ctx.expired():
@@ -1344,6 +1349,7 @@ def run(ctx):
                             'in_effect': {k: text_of(v) for k, v in t[1].items()}}, 'D')
     # stratum U has its own random stream too
     rnd = ctx.sub_rnd('unregistered', ctx.tier, ctx.shard, ctx.nshards)
+    ctx.release()
     for i in range(N_UNREGISTERED[ctx.tier] // ctx.nshards + 1):
         if (i & 0xf) == 0 and ctx.expired():
             break
